@@ -65,7 +65,11 @@ def check(prop, tier, seed, replay):
             behs = []
             for k, s in enumerate(pick):
                 behs.append(dict(id="sc%d" % k, n=rnd.choice([6, 24, 48] if tier == "quick" else [6, 24, 96]), feats=sorted(s["feats"]), defects=sorted(s["defects"]),
-                                 running=rnd.random() < 0.5, reps=4 if tier == "quick" else 8, procs=[1, 2, 16]))
+                                 running=rnd.random() < 0.5, replace=False, reps=4 if tier == "quick" else 8, procs=[1, 2, 16]))
+            # the replace flow: running is not preloaded, what the kept entries refer to is loaded on demand during validation
+            for k, s in enumerate(rnd.sample([x for x in scen if "peer" in x["feats"]], 8 if tier == "quick" else 40)):
+                behs.append(dict(id="rp%d" % k, n=rnd.choice([16, 40]), feats=sorted(set(s["feats"]) - {"gcheck", "dcheck", "gname"}), defects=sorted(set(s["defects"]) | {"range"}),
+                                 running=False, replace=True, reps=4 if tier == "quick" else 8, procs=[1, 2, 16]))
             log("ValConc.tla: %s; %d scenarios enumerated, %d selected" % ({k: v["holds"] for k, v in design.items()}, len(scen), len(behs)))
         else:
             design = None
